@@ -176,30 +176,54 @@ func runC02(c *Ctx) {
 		}
 		qs := p.Method(core.PkgCh, "Client", "querySettings")
 		if c.must(p, "(*ch.Client).querySettings", qs != nil) {
-			checkWiring(c, p, rule, qs, "Setting", map[string]string{"Key": "Setting.Key", "Value": "Setting.Value", "Important": "Setting.Important"})
-			// order of the two loops: the range over c.settings dominates the range over q.Settings
-			var first, second ssa.Instruction
-			for _, b := range qs.Blocks {
-				for _, in := range b.Instrs {
-					cl, ok := in.(*ssa.Call)
-					if !ok {
-						continue
-					}
-					bi, ok := cl.Call.Value.(*ssa.Builtin)
-					if !ok || bi.Name() != "len" {
-						continue
-					}
-					switch core.FieldOrigin(cl.Call.Args[0], 0) {
-					case "Client.settings":
-						first = in
-					case "Query.Settings":
-						second = in
+			// the conversion may live in querySettings itself or in a package helper it calls
+			family := []*ssa.Function{qs}
+			for _, f := range core.StaticReachList(qs) {
+				if f != qs && f.Blocks != nil && pkgOf(f) != nil && pkgOf(f).Path() == core.PkgCh {
+					family = append(family, f)
+				}
+			}
+			lit := qs
+			for _, f := range family {
+				for _, bb := range f.Blocks {
+					for _, in := range bb.Instrs {
+						if fa, ok := in.(*ssa.FieldAddr); ok && core.IsNamed(fa.X.Type(), core.PkgProto, "Setting") {
+							lit = f
+						}
 					}
 				}
 			}
+			checkWiring(c, p, rule, lit, "Setting", map[string]string{"Key": "Setting.Key", "Value": "Setting.Value", "Important": "Setting.Important"})
+			// order: the first use of the connection-level list dominates the first use of the query-level list
+			firstUse := func(origin string) ssa.Instruction {
+				var uses []ssa.Instruction
+				for _, bb := range qs.Blocks {
+					for _, in := range bb.Instrs {
+						if _, isDbg := in.(*ssa.DebugRef); isDbg {
+							continue
+						}
+						for _, op := range in.Operands(nil) {
+							if *op != nil && core.FieldOrigin(*op, 0) == origin {
+								if _, isLoad := in.(*ssa.UnOp); isLoad && core.FieldOrigin(in.(ssa.Value), 0) == origin {
+									continue // the load itself
+								}
+								uses = append(uses, in)
+							}
+						}
+					}
+				}
+				var best ssa.Instruction
+				for _, u := range uses {
+					if best == nil || core.Dominates(u, best) {
+						best = u
+					}
+				}
+				return best
+			}
+			first, second := firstUse("Client.settings"), firstUse("Query.Settings")
 			switch {
 			case first == nil || second == nil:
-				c.R.Bad(rule, core.FuncName(qs)+"/order", cfg, p.Pos(qs.Pos()), "querySettings does not range over both the connection-level and the query-level settings")
+				c.R.Bad(rule, core.FuncName(qs)+"/order", cfg, p.Pos(qs.Pos()), "querySettings does not use both the connection-level and the query-level settings")
 			case !core.Dominates(first, second):
 				c.R.Bad(rule, core.FuncName(qs)+"/order", cfg, p.Pos(second.Pos()), "query-level settings are not placed after the connection-level ones: the server applies them in order, so a query can no longer override a connection default")
 			default:
@@ -207,7 +231,11 @@ func runC02(c *Ctx) {
 			}
 			// every setting of both lists is forwarded: the append runs on every iteration
 			nApp := 0
-			for _, b := range qs.Blocks {
+			var famBlocks []*ssa.BasicBlock
+			for _, f := range family {
+				famBlocks = append(famBlocks, f.Blocks...)
+			}
+			for _, b := range famBlocks {
 				for _, in := range b.Instrs {
 					cl, ok := in.(*ssa.Call)
 					if !ok {
